@@ -17,6 +17,7 @@ package xsync
 //@ func (*MutexWithSpinlock).Unlock
 //@   props C02 C13
 //@   binds m
+//@   scope lock m
 //@   ensures [releases|C02] m.lock == 0
 
 //@ func (*MutexWithLock).Lock
